@@ -200,7 +200,8 @@ fn constructions(l: &mut Local, rng: &mut Rng) {
         backtrack_cols: if rng.coin() { rng.range(1, 3) } else { 0 },
         backtrack_trials: rng.range(0, 4),
         min_girth: if rng.coin() { Some(rng.range(4, 8)) } else { None },
-        girth_trials: rng.range(0, 30),
+        // 0 (the command line's default) in a quarter of the cases: a girth requirement without retries is meaningful
+        girth_trials: if rng.chance(0.25) { 0 } else { rng.range(1, 30) },
         fill_policy: if rng.coin() { FillPolicy::Uniform } else { FillPolicy::Random },
     };
     let seed = rng.next_u64() >> rng.below(62);
@@ -384,7 +385,57 @@ fn encode_cmd(l: &mut Local, rng: &mut Rng, dir: &str, idx: u64) {
     let words = if idx % 8 == 3 { rng.range(600, 2500) } else { rng.range(0, 5) };
     let partial = rng.range(0, k - 1);
     let input: Vec<u8> = (0..words * k + partial).map(|_| rng.coin() as u8).collect();
-    write_file(&ipath, &input);
+    // the input is a regular file, or (every 5th case) a named pipe that the harness feeds in uneven chunks:
+    // the tool must read to end-of-file whatever kind of file it is given, and cope with short reads
+    let fifo = idx % 5 == 2 && !cfg!(miri);
+    let _ = std::fs::remove_file(&ipath);
+    let mut feeder = None;
+    if fifo {
+        let c = std::ffi::CString::new(ipath.clone()).unwrap();
+        if unsafe { libc::mkfifo(c.as_ptr(), 0o600) } != 0 {
+            l.inconclusive("mkfifo failed");
+            return;
+        }
+        let data = input.clone();
+        let path = ipath.clone();
+        let chunk_seed = rng.next_u64();
+        feeder = Some(std::thread::spawn(move || {
+            use std::io::Write;
+            use std::os::unix::io::FromRawFd;
+            let c = std::ffi::CString::new(path).unwrap();
+            // wait (at most 60 s) for the tool to open the pipe; never block for ever if it does not
+            let t0 = std::time::Instant::now();
+            let fd = loop {
+                let fd = unsafe { libc::open(c.as_ptr(), libc::O_WRONLY | libc::O_NONBLOCK) };
+                if fd >= 0 {
+                    break fd;
+                }
+                if t0.elapsed().as_secs() > 60 {
+                    return;
+                }
+                std::thread::sleep(std::time::Duration::from_millis(2));
+            };
+            unsafe {
+                let fl = libc::fcntl(fd, libc::F_GETFL);
+                libc::fcntl(fd, libc::F_SETFL, fl & !libc::O_NONBLOCK);
+            }
+            let mut f = unsafe { std::fs::File::from_raw_fd(fd) };
+            let mut r = Rng::new(chunk_seed);
+            let mut pos = 0;
+            while pos < data.len() {
+                let n = r.range(1, 700).min(data.len() - pos);
+                if f.write_all(&data[pos..pos + n]).is_err() {
+                    return;
+                }
+                pos += n;
+                if r.chance(0.2) {
+                    std::thread::sleep(std::time::Duration::from_micros(200));
+                }
+            }
+        }));
+    } else {
+        write_file(&ipath, &input);
+    }
     // the output path either does not exist or already holds a (longer) file from an earlier run
     let _ = std::fs::remove_file(&opath);
     let preexisting = rng.chance(0.5);
@@ -405,10 +456,19 @@ fn encode_cmd(l: &mut Local, rng: &mut Rng, dir: &str, idx: u64) {
         args.push("--puncturing");
         args.push(ps);
     }
-    if let Some((code, _out, err)) = cli(l, &args, 60) {
+    let res = cli(l, &args, 60);
+    if let Some(f) = feeder {
+        let _ = f.join();
+        // from here on the input path is a regular file again (the invalid invocations below read it)
+        let _ = std::fs::remove_file(&ipath);
+        write_file(&ipath, &input);
+        l.count("encode_input_through_named_pipe");
+    }
+    if let Some((code, _out, err)) = res {
         let got = std::fs::read(&opath).unwrap_or_default();
         let det = || {
             J::obj()
+                .set("input_is_a_named_pipe", fifo)
                 .set("n", n)
                 .set("k", k)
                 .set("puncturing", ps.clone())
